@@ -529,8 +529,44 @@ RunResult run(const RunConfig &cfg, const std::function<void()> &root)
   r->harness  = true;
   S.cur       = r;
   wake(r);
-  while (S.done_futex.load(std::memory_order_acquire) == 0)
-    futex_wait(&S.done_futex, 0);
+  // Watchdog: a task that spins or blocks in code without schedule points (an endless loop in
+  // the code under test, a real lock) never returns the baton, so neither the point budget nor
+  // the deadlock detection can see it. The driver thread notices that the point counter has
+  // stopped while the process keeps burning CPU (5 s; the typical gap between two points is
+  // microseconds) or for 60 s of wall time, and reports a liveness violation.
+  {
+    auto cpu_now = []() {
+      timespec ts;
+      clock_gettime(CLOCK_PROCESS_CPUTIME_ID, &ts);
+      return (int64_t)ts.tv_sec * 1000000000ll + ts.tv_nsec;
+    };
+    auto wall_now = []() {
+      timespec ts;
+      clock_gettime(CLOCK_MONOTONIC, &ts);
+      return (int64_t)ts.tv_sec * 1000000000ll + ts.tv_nsec;
+    };
+    uint64_t last = __atomic_load_n(&S.points, __ATOMIC_RELAXED);
+    int64_t cpu0 = cpu_now(), wall0 = wall_now();
+    while (S.done_futex.load(std::memory_order_acquire) == 0)
+    {
+      timespec to{0, 250000000};
+      syscall(SYS_futex, reinterpret_cast<uint32_t *>(&S.done_futex), FUTEX_WAIT_PRIVATE, 0, &to,
+              nullptr, 0);
+      if (S.done_futex.load(std::memory_order_acquire) != 0)
+        break;
+      uint64_t p = __atomic_load_n(&S.points, __ATOMIC_RELAXED);
+      if (p != last)
+      {
+        last  = p;
+        cpu0  = cpu_now();
+        wall0 = wall_now();
+        continue;
+      }
+      if (cpu_now() - cpu0 > 5000000000ll || wall_now() - wall0 > 60000000000ll)
+        fatal("hang", "a task made no schedule point for 5 s of CPU time / 60 s of wall time "
+                      "(endless loop or real blocking in code without schedule points)");
+    }
+  }
   for (Task *t : S.tasks)
     pthread_join(t->th, nullptr);
   RunResult res = snapshot();
